@@ -286,7 +286,7 @@ func (c *Check) genesisBindingSetter(rule string) {
 		if e.Kind == "store" && e.Op == "Set" {
 			fams[e.Family] = true
 			if e.Family == "0x06" {
-				if sv := structIn(e.Val, "Pricing"); sv != nil && strings.Contains(sv.String(), "keeper.Keeper.ParsePricing (.ServiceBinding.Pricing ") {
+				if sv := structIn(e.Val, "Pricing"); sv != nil && strings.Contains(sv.String(), c.nParsePricing()+" (.ServiceBinding.Pricing ") {
 					pricingOK = true
 				}
 			}
